@@ -1,0 +1,18 @@
+//go:build verif
+
+package network
+
+// Lemma functions for govc (see /verif/DESIGN.md): compositions of functions under contract whose
+// postconditions state the round-trip properties. Built only with -tags verif, never called.
+
+func verifLemmaHeaderRoundTrip(p *Packet, q *Packet) error {
+	h := p.headerToBytes(true)
+	_, err := q.setHeader(h)
+	return err
+}
+
+func verifLemmaFooterRoundTrip(p *Packet, q *Packet) error {
+	f := p.footerToBytes(true)
+	_, err := q.setFooter(f)
+	return err
+}
